@@ -9,7 +9,7 @@ From RtoscV Require Import Ports.WalkModel Ports.DispatchModel Ports.TreeProofs 
 From RtoscV Require Import Save.TreeApp Save.DispatchStage Save.TreeStage Save.WalkStage Save.TreePipeline.
 From RtoscV Require Pretty.Tok Pretty.PrintModel Pretty.ScanModel Pretty.PrettyProofs Pretty.RunProofs Pretty.ListProofs Pretty.ArrayProofs.
 From RtoscV Require Import Save.PrintStage Save.PrintTotal Save.PrintLines Save.PipelineReal.
-From RtoscV Require Import Save.CondModel Save.CondProofs.
+From RtoscV Require Import Save.CondModel Save.CondProofs Save.ReachProofs.
 Import ListNotations.
 Local Open Scope Z_scope.
 
@@ -639,3 +639,25 @@ Theorem C12_wf_app_computed : forall a, wf_app_b a = true -> wf_app a.
 Proof. exact wf_app_b_sound. Qed.
 Theorem C12_full_conditions_computed : forall a st, full_conditions_b a st = true -> full_conditions a st.
 Proof. exact full_conditions_b_sound. Qed.
+
+(* "For any state an application can reach through its parameter ports": the states reached from
+   a default-initialised instance by parameter messages (send: a message no port accepts leaves the
+   state as it is) satisfy what the round-trip theorems ask of the state.  Asked of the application:
+   wf_app and defaults that its own callbacks store (defaults_stable: inside the declared range);
+   of a message: msg_ok - the value it stores is stored again when sent as the file shows it.  That
+   holds for EVERY message to a port that is no option port (C12_msg_ok_non_option, from C14's
+   clamp idempotence); for option ports it excludes exactly the messages of the finding class
+   option-outside-range (a symbol whose number lies outside the declared range).  All three are
+   decidable and evaluated by the tie (defaults_stable_b, msg_ok_b). *)
+Theorem C12_reachable_full_conditions : forall a, wf_app a -> defaults_stable a ->
+  forall s, reachable a s -> full_conditions a s.
+Proof. exact reachable_full_conditions. Qed.
+Theorem C12_msg_ok_non_option : forall p v, p_kind p <> KO -> msg_ok p v.
+Proof. exact msg_ok_non_option. Qed.
+Theorem C12_defaults_stable_computed : forall a, defaults_stable_b a = true -> defaults_stable a.
+Proof. exact defaults_stable_b_sound. Qed.
+Theorem C12_msg_ok_computed : forall p v, msg_ok_b p v = true -> msg_ok p v.
+Proof. exact msg_ok_b_sound. Qed.
+Theorem C12_reachable_nonvacuous :
+  wf_app fx_app /\ defaults_stable fx_app /\ reachable fx_app fx_state /\ full_conditions fx_app fx_state.
+Proof. exact reachable_nonvacuous. Qed.
